@@ -142,11 +142,24 @@ def wrap(a):
     return a
 
 
+def _np_scalar(v):
+    """0-d results of object arrays are python scalars; real float arrays give numpy scalars"""
+    if isinstance(v, bool):
+        return np.bool_(v)
+    if isinstance(v, float):
+        return np.float64(v)
+    if isinstance(v, int):
+        return np.int64(v)
+    return v
+
+
 def _wrapres(r):
     if isinstance(r, np.ndarray):
         if r.ndim == 0 and r.dtype == object:
-            return r[()]
+            return _np_scalar(r[()])
         return wrap(r)
+    if isinstance(r, (float, int)) and not isinstance(r, bool):
+        return _np_scalar(r)
     if isinstance(r, tuple):
         return tuple(_wrapres(x) for x in r)
     if isinstance(r, list):
@@ -516,7 +529,7 @@ def _sum(a, axis=None, dtype=None, out=None, **kw):
     if dtype is SymIntT:
         dtype = np.int64
     if isinstance(a, np.ndarray) and a.dtype == object and a.size == 0 and axis is None:
-        return 0.0
+        return np.float64(0.0)
     r = np.sum(a, axis=axis, dtype=dtype, out=out, **kw)
     if isinstance(r, np.ndarray) and r.dtype == object and r.size:
         # empty reductions along an axis yield int 0 objects; fine (0 is the additive identity)
@@ -893,12 +906,12 @@ def _norm(x, ord=None, axis=None, keepdims=False):
             s = 0
             for v in flat:
                 s = s + v * v
-            return fac.sqrt(s) if isinstance(s, _SYM) else math.sqrt(s)
+            return fac.sqrt(s) if isinstance(s, _SYM) else np.float64(math.sqrt(s))
         if ord == 1 and arr.ndim == 1:
             s = 0
             for v in flat:
                 s = s + abs(v)
-            return s
+            return _np_scalar(s)
         if ord == np.inf and arr.ndim == 1:
             return functools.reduce(_max2, [abs(v) for v in flat])
         raise Unmodelled(f"norm ord={ord} ndim={arr.ndim}")
